@@ -116,6 +116,7 @@ class PolicyOracle:
                     'busy_peers': {str(sa.peer_addr) for sa in node.ike_sas() if sa.state.name.endswith('_REQ_SENT') and 10 < int(sa.state) < 20
                                    and sa.state.name not in ('DEL_IKE_SA_REQ_SENT', 'DEL_AFTER_REKEY_IKE_SA_REQ_SENT')}
                     | {str(sa.peer_addr) for sa in node.ike_sas() if sa.state.name in ('INIT_REQ_SENT', 'AUTH_REQ_SENT')},
+                    'pend0': [(sa, len(sa.pending_events), int(sa.state), str(sa.peer_addr)) for sa in node.ike_sas()],
                     'sent0': len(self.wire.by_sender.get(node.name, [])), 'req0': node.kernel.req_no,
                     'others_readable': any(s.queue for s in node.udp.values()),
                     'timer': timers_due(node) if node.state == 'running' and node.controller else False}
@@ -272,6 +273,18 @@ class PolicyOracle:
                     return self.viol('acquire_not_negotiated_on_idle_ike_sa', {}, f'{N}: ACQUIRE for index {idx} (peer {conn["peer_addr"]}) while an idle '
                                      f'ESTABLISHED IKE_SA with that peer exists, yet no CREATE_CHILD_SA request was sent in that iteration; table '
                                      f'{[(sa.state.name, len(sa.pending_events)) for sa in node.ike_sas()]}')
+                # ... and one that is established but busy takes it into its queue: handing it to a half-open IKE_SA of our own, whose handshake
+                # may never complete, while an established IKE_SA with that peer exists is not re-using the IKE_SA
+                if len(cur['acq']) == 1 and not cur['others_readable'] and not cur['timer']:
+                    est = [x for x in cur['pend0'] if x[3] == str(conn['peer_addr']) and 10 <= x[2] < 20 and x[2] not in (15, 16)]
+                    half = [x for x in cur['pend0'] if x[3] == str(conn['peer_addr']) and x[2] in (2, 3)]
+                    if est and half:
+                        self._r('acquire_with_half_open_and_established')
+                        if any(len(sa.pending_events) > n0 for sa, n0, _, _ in half):
+                            return self.viol('acquire_did_not_reuse_ike_sa', {'went_to': 'half_open'},
+                                             f'{N}: ACQUIRE for index {idx} was queued on a half-open IKE_SA of our own '
+                                             f'({[(sa.my_spi.hex(), sa.state.name) for sa, _, _, _ in half]}) although an established IKE_SA with '
+                                             f'{conn["peer_addr"]} existed ({[(sa.my_spi.hex(), sa.state.name) for sa, _, _, _ in est]})')
                 if str(conn['peer_addr']) in cur['idle_peers']:
                     self._r('acquire_on_idle_ike_sa_checked')
                 if str(conn['peer_addr']) in cur['est_peers']:
@@ -407,7 +420,46 @@ def generate(seed, tier):
         _rekey_window_batch(sc, r)
     elif r.random() < 0.15:
         _history_batch(sc, r)
+    elif r.random() < 0.3:
+        _crossing_batch(sc, r)
     return sc
+
+
+def _crossing_batch(sc, r):
+    """Batch 'crossing' (clause: re-using an IKE_SA with the peer if one exists).  Nobody restarts.  Both ends initiate at once and A's own
+    IKE_SA_INIT request is lost (its first retransmission comes 2 s later): A's table holds its own half-open initiator IKE_SA in front of
+    the established one B created.  Then A's kernel raises ACQUIREs for further entries in quick succession: the first is negotiated at once
+    on the established IKE_SA, the next arrive while that exchange is outstanding."""
+    ra = next(iter(configs.read_conf(sc['nodes']['A']['conf']).values()))
+    rb = next(iter(configs.read_conf(sc['nodes']['B']['conf']).values()))
+    if len(ra['protect']) < 3:
+        return
+    for nd in sc['nodes'].values():
+        for c in nd['conf'].values():
+            c['lifetime'], c['dpd'] = 10000, 600
+            for p in c['protect']:
+                p['lifetime'] = 600
+    ents = list(range(len(ra['protect'])))
+    r.shuffle(ents)
+    flow = lambda e: configs.flow_for_entry(r, ra['my_addr'], ra['peer_addr'], ra['protect'][e])
+    ops = [{'t': 0.0, 'op': 'start', 'node': 'A'}, {'t': 0.05, 'op': 'start', 'node': 'B'},
+           {'t': 1.0, 'op': 'packet', 'node': 'A', 'flow': flow(ents[0])},
+           {'t': 1.001, 'op': 'packet', 'node': 'B', 'flow': configs.flow_for_entry(r, rb['my_addr'], rb['peer_addr'], rb['protect'][r.randrange(len(rb['protect']))])}]
+    t = round(1.0 + r.choice([0.3, 0.5, 0.9, 1.4]), 3)
+    for e in ents[1:] + ents[1:2]:
+        ops.append({'t': round(t, 4), 'op': 'packet', 'node': 'A', 'flow': flow(e)})
+        t += r.choice([0.001, 0.003, 0.008])
+    sc['ops'] = ops
+    sc['fates'] = {'A#1': {'fate': 'drop'}}
+    if r.random() < 0.5:
+        # ... and A's IKE_SA_INIT never gets through at all (its next transmissions are A#2.. in an unknown position: a one-way filter)
+        sc['drop_init_requests_of'] = 'A'
+    sc['fate_policy'] = {'mode': 'deliver'}
+    sc['until'] = round(t + 30.0, 3)
+    sc['quiet_from'] = sc['until']
+    sc['meta']['batch'] = 'crossing'
+    sc['meta']['faults'] = ['drop']
+    sc.pop('probe_flow', None)
 
 
 def _history_batch(sc, r):
@@ -658,6 +710,13 @@ def run(scenario):
                      f'unprotected ({why}) and B has not sent a single IKE_SA_INIT / CREATE_CHILD_SA request since; IKE_SAs at B (state, role, CHILD_SAs, queued events): {table}')
         ctx['handlers'] = {'preload': preload, 'reconf': reconf, 'mark_stale': mark_stale, 'foreign_acquire': foreign_acquire, 'probe': probe,
                            'spoof_init': spoof_init, 'acq_probe': acq_probe}
+        if scenario.get('drop_init_requests_of'):
+            class InitFilter:
+                def on_wire(self, meta, data):
+                    h = parse_header(data)
+                    if h is not None and meta['sender'] == scenario['drop_init_requests_of'] and h['exch'] == 34 and not h['R']:
+                        w.decisions.explicit[meta['key']] = {'fate': 'drop'}
+            w.net.taps.append(InitFilter())
         aw = scenario.get('acquire_after_rekey_answer')
         if aw:
             class RekeyWindow:
